@@ -121,6 +121,19 @@ class IntervalDict:
     def intervals(self):
         return [tuple(t) for t in self._iv]
 
+    # writes are kept (as single-key intervals in front, so they win) and remembered: a status table is shared,
+    # module-level state and code that merely *uses* it must not change it
+    def __setitem__(self, key, value):
+        self._iv.insert(0, [key, key, value])
+        self.writes = getattr(self, "writes", 0) + 1
+
+    def setdefault(self, key, default=None):
+        for lo, hi, v in self._iv:
+            if lo <= key and key <= hi:
+                return v
+        self[key] = default
+        return default
+
 
 # 4. loggers ----------------------------------------------------------------------------------
 class NullLogger:
